@@ -62,7 +62,17 @@ func c02Run(c *run.Ctx, text string, interp bool, kp *keys.Pair, reps int) (what
 	var before []string
 	allCommandSteps(p.Steps, func(path string, s *pipeline.CommandStep) { before = append(before, path) })
 
-	verifyAll := func(leg string, steps pipeline.Steps) string {
+	// the verification env of a re-parsed output is the env block of that output (what the receiving side has),
+	// plus an unrelated variable
+	envOf := func(q *pipeline.Pipeline) map[string]string {
+		e := map[string]string{}
+		if q.Env != nil {
+			e = q.Env.ToMap()
+		}
+		e["BUILDKITE_UNRELATED"] = "added by the backend"
+		return e
+	}
+	verifyAll := func(leg string, steps pipeline.Steps, venv map[string]string) string {
 		var after []string
 		bad := ""
 		allCommandSteps(steps, func(path string, s *pipeline.CommandStep) {
@@ -90,7 +100,7 @@ func c02Run(c *run.Ctx, text string, interp bool, kp *keys.Pair, reps int) (what
 		}
 		return ""
 	}
-	if w := verifyAll("direct", p.Steps); w != "" {
+	if w := verifyAll("direct", p.Steps, venv); w != "" {
 		return w, nil, false
 	}
 	for rep := 0; rep < reps; rep++ {
@@ -103,7 +113,7 @@ func c02Run(c *run.Ctx, text string, interp bool, kp *keys.Pair, reps int) (what
 		if err != nil && !warning.Is(err) {
 			return "JSON marshalling rejected on re-parse: " + err.Error(), map[string]any{"json": clip(string(jb), 4000)}, false
 		}
-		if w := verifyAll("json-parse", p2.Steps); w != "" {
+		if w := verifyAll("json-parse", p2.Steps, envOf(p2)); w != "" {
 			return w, map[string]any{"json": clip(string(jb), 6000)}, false
 		}
 		// JSON, step by step (the way an agent receives a job)
@@ -149,7 +159,7 @@ func c02Run(c *run.Ctx, text string, interp bool, kp *keys.Pair, reps int) (what
 		if err != nil && !warning.Is(err) {
 			return "YAML marshalling rejected on re-parse: " + err.Error(), map[string]any{"yaml": clip(string(yb), 4000)}, false
 		}
-		if w := verifyAll("yaml-parse", p3.Steps); w != "" {
+		if w := verifyAll("yaml-parse", p3.Steps, envOf(p3)); w != "" {
 			return w, map[string]any{"yaml": clip(string(yb), 6000)}, false
 		}
 	}
